@@ -1,6 +1,6 @@
 """C35 HTTP dates: field-range clause of the parser (DESIGN.md 5/C35)."""
 from .. import expr as E
-from ..flow import ev_return
+from ..flow import ev_return, ev_call
 
 RANGES = {"tm_sec": (0, 59), "tm_min": (0, 59), "tm_hour": (0, 23), "tm_mday": (1, 31), "tm_mon": (0, 11)}
 
@@ -35,4 +35,53 @@ def run(ck):
         ck.ok("D2.month-source", pde.where(), "tm_mon = make_month(month)")
     else:
         ck.violation("D2.month-source", "D2|parse_date_elements|month-source", pde.where(), "tm_mon no longer comes from make_month()")
+    ck.rule("D3 SIBLING format/parse: Time::FormatRfc1123 formats the broken-down *UTC* time (gmtime of its argument, never localtime) with the IMF-fixdate layout "
+            "`%a, %d %b %Y %H:%M:%S GMT`; Time::ParseRfc1123 converts the parsed fields back with the UTC inverse timegm() of the tm that parse_date() returned "
+            "(on this build HAVE_TIMEGM), and returns -1 when parse_date() failed")
+    fmt = facts.fn("Time::FormatRfc1123")
+    st = [E.strip(ev["x"]) for b in fmt.blocks.values() for ev in b["ev"] if ev.get("e") == "call" and E.strip(ev["x"]).get("f") == "strftime"]
+    ck.need(len(st) == 1 and len(st[0].get("a", [])) == 4, "C35: FormatRfc1123 no longer formats with one strftime() call")
+    layout = E.strip(st[0]["a"][2])
+    want = "%a, %d %b %Y %H:%M:%S GMT"
+    if layout.get("k") == "str" and layout.get("v") == want:
+        ck.ok("D3.format-layout", fmt.where(), "strftime layout is the IMF-fixdate form")
+    else:
+        ck.violation("D3.format-layout", "D3|FormatRfc1123|layout", fmt.where(), "FormatRfc1123 formats with %r instead of %r: the parser's field order / zone check no longer match" % (layout.get("v"), want))
+    tmdefs = ck.local_defs(fmt).get(E.strip(st[0]["a"][3]).get("d"), [])
+    if tmdefs and all(E.strip(d).get("f") == "gmtime" and E.m_is_ref(fmt.params[0]["d"])(E.strip(E.strip(d)["a"][0]).get("e")) for d in tmdefs):
+        ck.ok("D3.format-utc", fmt.where(), "the formatted fields are gmtime(&t)")
+    else:
+        ck.violation("D3.format-utc", "D3|FormatRfc1123|not-utc", fmt.where(), "FormatRfc1123 no longer formats gmtime(&t): %s (a local-time rendering labelled GMT does not parse back to the same time)" % [E.key(d) for d in tmdefs])
+    prs = facts.fn("Time::ParseRfc1123")
+    pfl = ck.flow(prs)
+    inv = ck.sites(pfl, lambda ev: ev.get("e") == "call" and E.strip(ev["x"]).get("f") in ("timegm", "mktime"), "timegm()", 1)
+    for s_ in inv:
+        x = E.strip(s_.ev["x"])
+        if x.get("f") == "timegm" and ck.m_result_of(prs, "parse_date")(x["a"][0]) and s_.has(ck.m_result_of(prs, "parse_date"), True):
+            ck.ok("D3.parse-utc-inverse", s_.where(), "ParseRfc1123 converts parse_date()'s non-null tm with timegm()")
+        else:
+            ck.violation("D3.parse-utc-inverse", "D3|ParseRfc1123|inverse", s_.where(), "ParseRfc1123 converts with %s: not the UTC inverse of the formatter" % E.key(x))
+    ck.require_response("D3.parse-failure-reported", prs, ck.m_result_of(prs, "parse_date"), False, ev_return(E.m_const(-1)), "return -1", why="(an unparsable date would yield a time)")
+
+    ck.rule("D4 ENUMTABLE month names: month_names[] has the 12 English abbreviations in calendar order (what strftime(%b) prints in the C locale and what tm_mon means); "
+            "make_month returns the matching index of that table (or -1)")
+    mn = facts.var("month_names")
+    names = [E.strip(a).get("v") for a in mn["init"].get("a", [])]
+    want_m = ["Jan", "Feb", "Mar", "Apr", "May", "Jun", "Jul", "Aug", "Sep", "Oct", "Nov", "Dec"]
+    if names == want_m:
+        ck.ok("D4.month-table", "src/time/rfc1123.cc:%d" % mn["l"], "month_names[] = Jan..Dec in order")
+    else:
+        ck.violation("D4.month-table", "D4|month_names", "src/time/rfc1123.cc:%d" % mn["l"], "month_names[] is %s" % names)
+    mm = facts.fn("make_month")
+    mfl = ck.flow(mm)
+    nret = 0
+    for s_ in mfl.find(lambda ev: ev.get("e") == "ret" and E.const(ev.get("x")) is None):
+        nret += 1
+        r = E.strip(s_.ev["x"])
+        cmp_ok = any(f[0] == "A" and f[2] is False and "strncmp" in f[1] and "month_names[%s]" % E.key(r) in f[1] for f in s_.facts)
+        if r.get("k") == "ref" and cmp_ok:
+            ck.ok("D4.month-index", s_.where(), "make_month returns the index whose table entry compared equal")
+        else:
+            ck.violation("D4.month-index", "D4|make_month|index", s_.where(), "make_month returns %s without month_names[%s] having compared equal" % (E.key(r), E.key(r)))
+    ck.need(nret >= 1, "C35: make_month no longer returns a table index")
     ck.assume("round-trip over all times, calendar correctness and the atoi()-based field conversion (trailing garbage, year range) are not decided")
